@@ -479,8 +479,15 @@ func runC01_5(c *core.Ctx) {
 			if !ok {
 				return in
 			}
-			zero := flow.ConstOf(f.Info, y)
-			if zero == nil || constant.Sign(zero) != 0 {
+			// (ev & M) op K, operands in either order; K need not be zero
+			kv := flow.ConstOf(f.Info, y)
+			if kv == nil {
+				if kv = flow.ConstOf(f.Info, x); kv == nil {
+					return in
+				}
+				x = y
+			}
+			if op != token.EQL && op != token.NEQ {
 				return in
 			}
 			be, ok := ast.Unparen(x).(*ast.BinaryExpr)
@@ -489,11 +496,43 @@ func runC01_5(c *core.Ctx) {
 			}
 			mv := flow.ConstOf(f.Info, be.Y)
 			if mv == nil {
+				mv = flow.ConstOf(f.Info, be.X)
+			}
+			if mv == nil {
 				return in
 			}
 			m, _ := constant.Int64Val(mv)
-			isZeroEdge := (op == token.EQL) == e.Sense
-			if isZeroEdge && m&inBit != 0 {
+			k, _ := constant.Int64Val(kv)
+			if m&inBit == 0 || m < 0 {
+				return in
+			}
+			// decided over every value the masked event can take: the edge establishes "not readable"
+			// when no value that takes it has the EPOLLIN bit
+			var bits []int64
+			for b := int64(1); b != 0 && b <= m; b <<= 1 {
+				if m&b != 0 {
+					bits = append(bits, b)
+				}
+			}
+			if len(bits) > 12 {
+				return in
+			}
+			taken, readable := false, false
+			for sub := 0; sub < 1<<uint(len(bits)); sub++ {
+				var v int64
+				for i, b := range bits {
+					if sub&(1<<uint(i)) != 0 {
+						v |= b
+					}
+				}
+				if ((v == k) == (op == token.EQL)) == e.Sense {
+					taken = true
+					if v&inBit != 0 {
+						readable = true
+					}
+				}
+			}
+			if taken && !readable {
 				in |= fNoRead
 			}
 			return in
